@@ -370,7 +370,11 @@ spif_array_list_dup(spif_array_t self)
     memcpy(tmp, self, SPIF_SIZEOF_TYPE(array));
     tmp->items = (spif_obj_t *) MALLOC(sizeof(spif_obj_t) * self->len);
     for (i = 0; i < self->len; i++) {
-        tmp->items[i] = (spif_obj_t) SPIF_OBJ_DUP(SPIF_OBJ(self->items[i]));
+        if (SPIF_OBJ_ISNULL(self->items[i])) {
+            tmp->items[i] = (spif_obj_t) NULL;
+        } else {
+            tmp->items[i] = (spif_obj_t) SPIF_OBJ_DUP(SPIF_OBJ(self->items[i]));
+        }
     }
     return tmp;
 }
@@ -388,7 +392,11 @@ spif_array_vector_dup(spif_array_t self)
     memcpy(tmp, self, SPIF_SIZEOF_TYPE(array));
     tmp->items = (spif_obj_t *) MALLOC(sizeof(spif_obj_t) * self->len);
     for (i = 0; i < self->len; i++) {
-        tmp->items[i] = (spif_obj_t) SPIF_OBJ_DUP(SPIF_OBJ(self->items[i]));
+        if (SPIF_OBJ_ISNULL(self->items[i])) {
+            tmp->items[i] = (spif_obj_t) NULL;
+        } else {
+            tmp->items[i] = (spif_obj_t) SPIF_OBJ_DUP(SPIF_OBJ(self->items[i]));
+        }
     }
     return tmp;
 }
@@ -406,7 +414,11 @@ spif_array_map_dup(spif_array_t self)
     memcpy(tmp, self, SPIF_SIZEOF_TYPE(array));
     tmp->items = (spif_obj_t *) MALLOC(sizeof(spif_obj_t) * self->len);
     for (i = 0; i < self->len; i++) {
-        tmp->items[i] = (spif_obj_t) SPIF_OBJ_DUP(SPIF_OBJ(self->items[i]));
+        if (SPIF_OBJ_ISNULL(self->items[i])) {
+            tmp->items[i] = (spif_obj_t) NULL;
+        } else {
+            tmp->items[i] = (spif_obj_t) SPIF_OBJ_DUP(SPIF_OBJ(self->items[i]));
+        }
     }
     return tmp;
 }
